@@ -74,6 +74,7 @@ class FnTr:
         self.fresh = 0
         self.calls = set()
         self.lit_ty = ["int"]
+        self.made_cursor = False
         if self_fields:
             for f, ty in self_fields:
                 self.muts.append(("self_" + f, ty))
@@ -263,6 +264,9 @@ class FnTr:
             if body is None or body[2]:
                 raise TranslationError("rposition closure")
             return ("(rposition (fun %s => %s) (sl_bytes %s))" % (v, body[0], base[0]), "optusize", base[2])
+        if k == "mcall" and e[2] == "len" and not e[3] and e[1][0] == "path" and not self.is_cursor(e[1][1]) \
+                and self.lookup(e[1][1])[2] == "buffer":
+            return ("(length %s)" % self.lookup(e[1][1])[1], "usize", [])
         if k == "mcall":
             # (lo..=hi).contains(&b)
             if e[2] == "contains" and e[1][0] in ("paren", "range"):
@@ -282,6 +286,8 @@ class FnTr:
                     return None
                 return ("(from_utf8 %s)" % p[0], "optslice", p[2])
             if f in ("u64::from_ne_bytes",):
+                return self.pure(e[2][0])
+            if f == "assume_init_slice" and self.g.pinned_ok("assume_init_slice"):
                 return self.pure(e[2][0])
             if f in self.g.class_preds:
                 p = self.pure(e[2][0])
@@ -341,7 +347,7 @@ class FnTr:
     # ---------------------------------------------------------- effectful expressions
     def bytes_prim(self, e):
         """cursor primitive: (P-term, ty) or None"""
-        if e[0] == "mcall" and e[1] == ("path", "bytes") and self.lookup("bytes")[0] == "cursor":
+        if e[0] == "mcall" and e[1][0] == "path" and self.is_cursor(e[1][1]):
             m, args = e[2], e[3]
             def natarg(i):
                 p = self.pure(args[i])
@@ -373,14 +379,25 @@ class FnTr:
             if m == "len" and not args:
                 return ("remaining", "usize")
             raise TranslationError("Bytes method " + m)
-        if e[0] == "cast" and e[2] == "usize" and e[1] == ("mcall", ("mcall", ("path", "bytes"), "as_ref", []), "as_ptr", []):
+        if e[0] == "cast" and e[2] == "usize" and e[1][0] == "mcall" and e[1][2] == "as_ptr" and not e[1][3] \
+                and e[1][1][0] == "mcall" and e[1][1][2] == "as_ref" and not e[1][1][3] \
+                and e[1][1][1][0] == "path" and self.is_cursor(e[1][1][1][1]):
             return ("pos", "usize")
-        if e[0] == "call" and e[1][0] == "path" and e[1][1] in self.g.scanners and e[2] == [("path", "bytes")]:
+        if e[0] == "call" and e[1][0] == "path" and e[1][1] in self.g.scanners and len(e[2]) == 1 \
+                and self.is_bytes_arg(e[2][0]):
             return ("(%s E fuel)" % self.g.scanners[e[1][1]], "unit")
         return None
 
+    def is_cursor(self, name):
+        try:
+            return self.lookup(name)[0] == "cursor"
+        except TranslationError:
+            return False
+
     def is_bytes_arg(self, a):
-        return a == ("path", "bytes") or a == ("ref", True, ("path", "bytes"))
+        if a[0] == "ref" and a[1]:
+            a = a[2]
+        return a[0] == "path" and self.is_cursor(a[1])
 
     def ev(self, e, k):
         """code computing e then continuing with k(term, ty); k is RET for `iret`"""
@@ -1099,16 +1116,39 @@ class Gen:
                          "simd::match_header_name_vectored": "s_name"}
         self.mut_types = {("parse_headers_iter_uninit", "b"): "u8"}
         self.let_types = {("parse_headers_iter_uninit", "skip"): "usize"}
-        self.struct_fields = {"HeaderParserConfig": {
+        self.struct_fields = {"ParserConfig": {x: "bool" for x in (
+            "allow_spaces_after_header_name_in_responses", "allow_obsolete_multiline_headers_in_responses",
+            "allow_multiple_spaces_in_request_line_delimiters", "allow_multiple_spaces_in_response_status_delimiters",
+            "allow_space_before_first_header_name", "ignore_invalid_headers_in_responses",
+            "ignore_invalid_headers_in_requests")}, "HeaderParserConfig": {
             "allow_spaces_after_header_name": "bool", "allow_obsolete_multiline_headers": "bool",
             "allow_space_before_first_header_name": "bool", "ignore_invalid_headers": "bool"}}
+        self.fn_rty = {}
         self.out = []
         self.errors = []
 
     def field_coq(self, struct, f):
+        if struct == "ParserConfig" and f == "allow_space_before_first_header_name":
+            return "allow_space_before_first_header_name_cfg"
         return f
 
+    PINNED = {
+        "assume_init_slice": (0, "fn assume_init_slice < T > ( s : & mut [ MaybeUninit < T > ] ) -> & mut [ T ] { let s : * mut [ MaybeUninit < T > ] = s ; let s = s as * mut [ T ] ; & mut * s }"),
+        "deinit_slice_mut": (0, "fn deinit_slice_mut < 'a , 'b , T > ( s : & 'a mut & 'b mut [ T ] ) -> & 'a mut & 'b mut [ MaybeUninit < T > ] { let s : * mut & mut [ T ] = s ; let s = s as * mut & mut [ MaybeUninit < T > ] ; & mut * s }"),
+        "parse_headers_iter": (0, "fn parse_headers_iter < 'a > ( headers : & mut & mut [ Header < 'a > ] , bytes : & mut Bytes < 'a > , config : & HeaderParserConfig , ) -> Result < usize > { parse_headers_iter_uninit ( unsafe { deinit_slice_mut ( headers ) } , bytes , config , ) }"),
+    }
+
+    def pinned_ok(self, name):
+        nth, want = self.PINNED[name]
+        hdr, body = rsparse.find_fn(self.lib, name, nth)
+        got = norm(hdr) + " { " + norm(body) + " }"
+        if got != want:
+            raise TranslationError("pinned helper %s changed:\n   got  %s\n   want %s" % (name, got, want))
+        return True
+
     def err_name(self, e):
+        while e[0] == "paren":
+            e = e[1]
         if e[0] == "path":
             n = e[1]
             if n.startswith("Error::"):
@@ -1139,7 +1179,12 @@ class Gen:
 
     def special_let(self, f, s, nxt):
         # `let mut bytes = Bytes::new(buf);` -- the function runs on cur_new buf
-        if s[1][1] == "bytes" and s[3] is not None and s[3][0] == "call" and s[3][1] == ("path", "Bytes::new"):
+        if s[3] is not None and s[3][0] == "call" and s[3][1] == ("path", "Bytes::new") and len(s[3][2]) == 1 \
+                and s[3][2][0][0] == "path" and f.lookup(s[3][2][0][1])[2] == "buffer":
+            if any(v[0] == "cursor" and k != "bytes" for sc in f.scopes for k, v in sc.items()) or f.made_cursor:
+                raise TranslationError("%s: a second Bytes::new" % f.name)
+            f.made_cursor = True
+            f.scopes[-1][s[1][1]] = ("cursor", s[1][1], "cursor")
             return nxt()
         if f.name == "parse_headers_iter_uninit":
             name, init = s[1][1], s[3]
@@ -1196,6 +1241,8 @@ class Gen:
                     and a0[2] == ("path", "v") and a1[0] == ("ppath", "Status::Partial") and a1[1] is None \
                     and a1[2] == ("return", ("call", ("path", "Ok"), [("path", "Status::Partial")])):
                 call = scrut[1]
+                while call[0] == "paren":
+                    call = call[1]
                 if call[0] == "call" and call[1][0] == "path" and call[1][1] in self.fns \
                         and all(f.is_bytes_arg(a) for a in call[2]):
                     f.calls.add(call[1][1])
@@ -1210,8 +1257,55 @@ class Gen:
             raise TranslationError("%s: `?` outside the complete! shape" % f.name)
         return None
 
+    HCFG_FIELDS = ["allow_spaces_after_header_name", "allow_obsolete_multiline_headers",
+                   "allow_space_before_first_header_name", "ignore_invalid_headers"]
+
     def special_call(self, f, call, k):
-        return None
+        """complete!(parse_headers_iter_uninit(&mut headers, &mut bytes, &HeaderParserConfig {..}))  and
+           complete!(parse_headers_iter(&mut dst, &mut iter, &HeaderParserConfig::default()))"""
+        if call[0] != "call" or call[1][0] != "path" or call[1][1] not in ("parse_headers_iter_uninit", "parse_headers_iter"):
+            return None
+        if call[1][1] == "parse_headers_iter":
+            self.pinned_ok("parse_headers_iter")
+            self.pinned_ok("deinit_slice_mut")
+        a = call[2]
+        if len(a) != 3 or a[0][0] != "ref" or not a[0][1] or a[0][2][0] != "path" or not f.is_bytes_arg(a[1]):
+            raise TranslationError("header machine call shape")
+        kind, field, ty = f.lookup(a[0][2][1])
+        if kind != "mut" or ty != "slots":
+            raise TranslationError("header machine: first argument must be the mutable header slice")
+        cfgarg = a[2][2] if a[2][0] == "ref" else a[2]
+        if cfgarg == ("call", ("path", "HeaderParserConfig::default"), []):
+            self.struct_derives_default("HeaderParserConfig")
+            hc, guards = "hcfg_default", []
+        elif cfgarg[0] == "struct" and cfgarg[1] == "HeaderParserConfig" and [x for x, _ in cfgarg[2]] == self.HCFG_FIELDS:
+            ps = [f.pure(v) for _, v in cfgarg[2]]
+            if any(p is None or p[1] != "bool" or p[2] for p in ps):
+                raise TranslationError("HeaderParserConfig literal")
+            hc = "(mkhcfg %s)" % " ".join(p[0] for p in ps)
+        else:
+            raise TranslationError("HeaderParserConfig argument shape")
+        x = f.gensym()
+        pre, (hc,) = f.resolve(hc)
+        code = pre + "%s <~ icall_headers E fuel %s %s_%s set_%s_%s set_%s_v_mem ;; " % (
+            x, hc, f.coqname, field, f.coqname, field, f.coqname)
+        return code + (("iret %s" % x) if k is RET else k(x, "usize"))
+
+    def struct_derives_default(self, name):
+        i = None
+        for n in range(len(self.lib) - 1):
+            if self.lib[n] == ("ident", "struct") and self.lib[n + 1] == ("ident", name):
+                i = n
+        if i is None or "Default" not in norm(self.lib[max(0, i - 14):i]) or "derive" not in norm(self.lib[max(0, i - 14):i]):
+            raise TranslationError("struct %s no longer derives Default" % name)
+        j = i
+        while self.lib[j] != ("op", "{"):
+            j += 1
+        k2 = rsparse.matching(self.lib, j, "{", "}")
+        fields = norm(self.lib[j + 1:k2])
+        want = " , ".join("%s : bool" % x for x in self.HCFG_FIELDS) + " ,"
+        if fields != want:
+            raise TranslationError("struct %s fields changed: %s" % (name, fields))
 
     # ------------------------------------------------------------ emit one function
     def emit_fn(self, rust_name, coqname, rty, nth=0, params=None, brk_ty="unit", self_fields=None,
@@ -1242,7 +1336,7 @@ class Gen:
             init = "tt"
         iargs = "".join(" (%s : %s)" % (fl, coq_ty(ty)) for fl, ty in param_muts)
         lines.append("Definition %s_init%s : %s := %s." % (coqname, iargs, L, init))
-        rc = coq_ty(rty) if rty != "tuple_usize_u64" else "(nat * N)"
+        rc = {"tuple_usize_u64": "(nat * N)", "tuple_usize_slots": "(nat * list slot)"}.get(rty) or coq_ty(rty)
         lines.append("Definition %s_body %s: I %s %s %s %s :=\n  %s." % (
             coqname, extra_args, L, rc, coq_ty(brk_ty), rc, wrap(code)))
         if not param_muts:
@@ -1278,7 +1372,6 @@ Local Open Scope imp_scope.
 
 def generate(lib_toks, mac_toks):
     g = Gen(lib_toks, mac_toks)
-    g.fn_rty = {}
     out = [HEADER, "Section WithEnv.\nVariable E : env.\nVariable fuel : nat.\n"]
     leaf = [("skip_empty_lines", "g_skip_empty_lines", "unit"),
             ("skip_spaces", "g_skip_spaces", "unit"),
@@ -1309,13 +1402,109 @@ def generate(lib_toks, mac_toks):
     out.append("Section Chunk.\nVariable dbg : bool.\nVariable fuel : nat.\n")
     try:
         g.mut_types[("parse_chunk_size", "size")] = "int"
-        text, f = g.emit_fn("parse_chunk_size", "g_parse_chunk_size", "tuple_usize_u64")
+        text, f = g.emit_fn("parse_chunk_size", "g_parse_chunk_size", "tuple_usize_u64",
+                            params={"buf": ("imm", "buf", "buffer")})
         out.append("(* fn parse_chunk_size *)\n" + text)
     except (TranslationError, IndexError, KeyError, TypeError, ValueError, AttributeError, AssertionError) as ex:
         g.errors.append("G9 parse_chunk_size: %s" % ex)
         out.append("(* fn parse_chunk_size: TRANSLATION FAILED: %s *)\nDefinition g_parse_chunk_size : P unit := fun _ => Fault Unreachable.\n" % str(ex).replace("*)", "* )"))
     out.append("End Chunk.\n")
-    return "\n".join(out), g.errors
+    return "\n".join(out), generate_api(g), g.errors
+
+
+PINNED_WRAPPERS = [
+    ('parse_with_uninit_headers', 0, "fn parse_with_uninit_headers ( & mut self , buf : & 'b [ u8 ] , headers : & 'h mut [ MaybeUninit < Header < 'b >> ] , ) -> Result < usize > { self . parse_with_config_and_uninit_headers ( buf , & Default :: default ( ) , headers ) }"),
+    ('parse_with_config', 0, "fn parse_with_config ( & mut self , buf : & 'b [ u8 ] , config : & ParserConfig ) -> Result < usize > { let headers = mem :: take ( & mut self . headers ) ; unsafe { let headers : * mut [ Header < '_ > ] = headers ; let headers = headers as * mut [ MaybeUninit < Header < '_ >> ] ; match self . parse_with_config_and_uninit_headers ( buf , config , & mut * headers ) { Ok ( Status :: Complete ( idx ) ) => Ok ( Status :: Complete ( idx ) ) , other => { self . headers = & mut * ( headers as * mut [ Header < '_ > ] ) ; other } , } } }"),
+    ('parse_with_config', 1, "fn parse_with_config ( & mut self , buf : & 'b [ u8 ] , config : & ParserConfig ) -> Result < usize > { let headers = mem :: take ( & mut self . headers ) ; unsafe { let headers : * mut [ Header < '_ > ] = headers ; let headers = headers as * mut [ MaybeUninit < Header < '_ >> ] ; match self . parse_with_config_and_uninit_headers ( buf , config , & mut * headers ) { Ok ( Status :: Complete ( idx ) ) => Ok ( Status :: Complete ( idx ) ) , other => { self . headers = & mut * ( headers as * mut [ Header < '_ > ] ) ; other } , } } }"),
+    ('parse', 0, "fn parse ( & mut self , buf : & 'b [ u8 ] ) -> Result < usize > { self . parse_with_config ( buf , & Default :: default ( ) ) }"),
+    ('parse', 1, "fn parse ( & mut self , buf : & 'b [ u8 ] ) -> Result < usize > { self . parse_with_config ( buf , & ParserConfig :: default ( ) ) }"),
+    ('parse_request', 0, "fn parse_request < 'buf > ( & self , request : & mut Request < '_ , 'buf > , buf : & 'buf [ u8 ] , ) -> Result < usize > { request . parse_with_config ( buf , self ) }"),
+    ('parse_request_with_uninit_headers', 0, "fn parse_request_with_uninit_headers < 'headers , 'buf > ( & self , request : & mut Request < 'headers , 'buf > , buf : & 'buf [ u8 ] , headers : & 'headers mut [ MaybeUninit < Header < 'buf >> ] , ) -> Result < usize > { request . parse_with_config_and_uninit_headers ( buf , self , headers ) }"),
+    ('parse_response', 0, "fn parse_response < 'buf > ( & self , response : & mut Response < '_ , 'buf > , buf : & 'buf [ u8 ] , ) -> Result < usize > { response . parse_with_config ( buf , self ) }"),
+    ('parse_response_with_uninit_headers', 0, "fn parse_response_with_uninit_headers < 'headers , 'buf > ( & self , response : & mut Response < 'headers , 'buf > , buf : & 'buf [ u8 ] , headers : & 'headers mut [ MaybeUninit < Header < 'buf >> ] , ) -> Result < usize > { response . parse_with_config_and_uninit_headers ( buf , self , headers ) }"),
+    ('new', 0, "fn new ( headers : & 'h mut [ Header < 'b > ] ) -> Request < 'h , 'b > { Request { method : None , path : None , version : None , headers , } }"),
+    ('new', 1, "fn new ( headers : & 'h mut [ Header < 'b > ] ) -> Response < 'h , 'b > { Response { version : None , code : None , reason : None , headers , } }"),
+]
+PARSER_CONFIG = ("# [ derive ( Clone , Debug , Default ) ] pub struct ParserConfig { allow_spaces_after_header_name_in_responses : bool , "
+                 "allow_obsolete_multiline_headers_in_responses : bool , allow_multiple_spaces_in_request_line_delimiters : bool , "
+                 "allow_multiple_spaces_in_response_status_delimiters : bool , allow_space_before_first_header_name : bool , "
+                 "ignore_invalid_headers_in_responses : bool , ignore_invalid_headers_in_requests : bool , }")
+
+HEADER_API = """(* GENERATED by translator/lib2v.py from /repo/src/lib.rs -- do not edit.
+   The two `parse_with_config_and_uninit_headers` bodies and `parse_headers`, in the monad of Imp.v.
+   The one-line delegating wrappers (parse, parse_with_config, ParserConfig::parse_*, new) are pinned by
+   their token text: `wrappers_pinned` below is `true` only when every one of them reads as reviewed
+   (Api.v models them by hand). *)
+From Coq Require Import List NArith Bool.
+From HV Require Import Cursor Scan Model Api Imp ImpLib ImpGlue.
+From HV.Generated Require Import Lib.
+Import ListNotations.
+Local Open Scope imp_scope.
+
+"""
+
+
+def generate_api(g):
+    out = [HEADER_API, "Section WithEnv.\nVariable E : env.\nVariable fuel : nat.\n"]
+    exc = (TranslationError, IndexError, KeyError, TypeError, ValueError, AttributeError, AssertionError)
+    # the leaf functions live in Generated/Lib.v, inside a section with E and fuel
+    leaf_env = ("g_parse_token", "g_parse_method", "g_parse_uri")
+    saved = dict(g.fns)
+    for k, v in list(g.fns.items()):
+        if v in leaf_env:
+            g.fns[k] = "(%s E fuel)" % v
+        elif v in ("g_skip_empty_lines", "g_skip_spaces", "g_parse_reason"):
+            g.fns[k] = "(%s fuel)" % v
+    cfgp = ("imm", "config", "struct:ParserConfig")
+    bufp = ("imm", "buf", "buffer")
+    specs = [
+        ("parse_with_config_and_uninit_headers", 0, "g_request_core",
+         [("self_method", "optslice"), ("self_path", "optslice"), ("self_version", "optu8"), ("self_headers", "slots")],
+         {"self.method": "self_method", "self.path": "self_path", "self.version": "self_version", "self.headers": "self_headers"}),
+        ("parse_with_config_and_uninit_headers", 1, "g_response_core",
+         [("self_version", "optu8"), ("self_code", "optn"), ("self_reason", "optslice"), ("self_headers", "slots")],
+         {"self.version": "self_version", "self.code": "self_code", "self.reason": "self_reason", "self.headers": "self_headers"}),
+    ]
+    for rn, nth, cn, selfs, names in specs:
+        try:
+            params = {"buf": bufp, "config": cfgp, "headers": ("mut", "v_headers", "slots")}
+            tys = dict(selfs)
+            for src, fl in names.items():
+                params[src] = ("mut", fl, tys[fl])
+            text, f = g.emit_fn(rn, cn, "usize", nth=nth, params=params,
+                                extra_args="(config : config) (buf : list N) ",
+                                param_muts=selfs + [("v_headers", "slots"), ("v_mem", "slots")])
+            out.append("(* fn %s (#%d) *)\n%s" % (rn, nth, text))
+        except exc as ex:
+            g.errors.append("G9 %s#%d: %s" % (rn, nth, ex))
+            out.append("(* fn %s (#%d): TRANSLATION FAILED: %s *)\nDefinition %s_body : unit := tt.\n" % (rn, nth, str(ex).replace("*)", "* )"), cn))
+    try:
+        text, f = g.emit_fn("parse_headers", "g_parse_headers", "tuple_usize_slots",
+                            params={"src": ("imm", "src", "buffer"), "dst": ("mut", "v_headers", "slots")},
+                            extra_args="(src : list N) ", param_muts=[("v_headers", "slots"), ("v_mem", "slots")])
+        out.append("(* fn parse_headers *)\n" + text)
+    except exc as ex:
+        g.errors.append("G9 parse_headers: %s" % ex)
+        out.append("(* fn parse_headers: TRANSLATION FAILED: %s *)\nDefinition g_parse_headers_body : unit := tt.\n" % str(ex).replace("*)", "* )"))
+    out.append("End WithEnv.\n")
+    g.fns = saved
+    bad = []
+    for name, nth, want in PINNED_WRAPPERS:
+        try:
+            hdr, body = rsparse.find_fn(g.lib, name, nth)
+            got = norm(hdr) + " { " + norm(body) + " }"
+        except exc as ex:
+            got = "<not found: %s>" % ex
+        if got != want:
+            bad.append("%s#%d" % (name, nth))
+            g.errors.append("G9 pinned wrapper %s#%d changed: %s" % (name, nth, got[:300]))
+    toks = norm(g.lib)
+    if PARSER_CONFIG not in toks:
+        bad.append("ParserConfig")
+        g.errors.append("G9 pinned struct ParserConfig changed")
+    out.append("(* the delegating wrappers and ParserConfig read as reviewed: %s *)" % ("yes" if not bad else "NO: " + ", ".join(bad)))
+    out.append("Definition wrappers_pinned : bool := %s.\n" % ("true" if not bad else "false"))
+    return "\n".join(out)
 
 
 if __name__ == "__main__":
@@ -1324,7 +1513,7 @@ if __name__ == "__main__":
     repo = sys.argv[1] if len(sys.argv) > 1 else "/repo"
     lib = rs2v.lex(open(repo + "/src/lib.rs").read())
     mac = rs2v.lex(open(repo + "/src/macros.rs").read())
-    text, errs = generate(lib, mac)
-    sys.stdout.write(text)
+    text, api, errs = generate(lib, mac)
+    sys.stdout.write(text if len(sys.argv) < 3 else api)
     for e in errs:
         sys.stderr.write(e + "\n")
